@@ -110,7 +110,7 @@ def call_relaxation(c, ts, dt, variant, tmpdir, outputfile=""):
         return obj.relaxation(**rk)
 
 
-def call_sq4(c, ts, dt, tnum, numofq, tmpdir):
+def call_sq4(c, ts, dt, tnum, numofq, tmpdir, outputfile=""):
     cls, kw = build(c, ts, "lin", tmpdir)
     dtv = dt[0] / dt[1]
     kw["dt"] = dtv
@@ -122,9 +122,10 @@ def call_sq4(c, ts, dt, tnum, numofq, tmpdir):
         warnings.simplefilter("ignore")
         obj = cls(**kw)
         cond = cond_array(c, "lin")
+        sk = {"outputfile": outputfile} if outputfile else {}
         if cond is None:
-            return obj.sq4(t=t, qrange=qrange)
-        return obj.sq4(t=t, qrange=qrange, condition=cond)
+            return obj.sq4(t=t, qrange=qrange, **sk)
+        return obj.sq4(t=t, qrange=qrange, condition=cond, **sk)
 
 
 def brief(c):
@@ -278,15 +279,23 @@ def replay_case(chk, case, tmpdir, csv=False, verbose=False):
     if s4["empty"] or s4["qtie"] or s4["mtie"]:
         chk.tie()
         return None
+    out = os.path.join(tmpdir, "s4.csv") if csv else ""
     try:
-        df = call_sq4(c, case["tsq"], case["dt"], case["tnum"], s4["numofq"], tmpdir)
+        df = call_sq4(c, case["tsq"], case["dt"], case["tnum"], s4["numofq"], tmpdir, out)
     except Exception as e:
         chk.violation(f"raises:{type(e).__name__}", {**info, "error": str(e)[:300]})
         return False
     if verbose:
         print(df.to_string())
         print([(ev(g["q"]), ev(g["S"])) for g in s4["groups"]])
-    return compare_s4(chk, info, s4, df, tag="s4:")
+    ok = compare_s4(chk, info, s4, df, tag="s4:")
+    if ok and csv:
+        import pandas as pd
+        back = pd.read_csv(out)
+        if list(back.columns) != ["q", "Sq"] or not np.allclose(back.values, df.values, rtol=1e-12, atol=1e-12):
+            chk.violation("s4:CSV", info)
+            return False
+    return ok
 
 
 # --------------------------------------------------------------------------
@@ -330,8 +339,22 @@ def gen_case(rng):
             fr.append([xu[-1][i][k] + st[k] for k in range(d)])
         xu.append(fr)
     wrap_axes = [1] * d if mode == "both" else ppp
-    x = [[[(xu[f][i][k] % box[k]) if wrap_axes[k] == 1 else xu[f][i][k] for k in range(d)]
-          for i in range(N)] for f in range(T)]
+    H = [[box[i] if i == j else 0 for j in range(d)] for i in range(d)]
+    if mode == "x" and rng.random() < 0.3:          # LAMMPS-style triclinic cell, tilts of either sign
+        for i in range(1, d):
+            for j in range(i):
+                H[i][j] = rng.randint(-box[j] // 2, box[j] // 2)
+
+    def wrap(v):
+        # bring v into the cell along the wrapped axes (lower-triangular H: last axis first);
+        # TraceRelaxation!WellFormed checks that x - xu is a lattice vector of those axes
+        w = list(v)
+        for k in range(d - 1, -1, -1):
+            if wrap_axes[k] == 1:
+                n = w[k] // H[k][k]
+                w = [w[m] - n * H[k][m] for m in range(d)]
+        return w
+    x = [[wrap(xu[f][i]) for i in range(N)] for f in range(T)]
     hasCond = rng.randint(0, 1)
     cond = []
     for f in range(T):
@@ -349,9 +372,9 @@ def gen_case(rng):
         nb.append(fr)
     q = rng.choice([{"pi": 1, "n": 2, "d": 1}, {"pi": 1, "n": 1, "d": 1}, {"pi": 0, "n": 7, "d": 2},
                     {"pi": 0, "n": 31, "d": 10}, {"pi": 1, "n": 5, "d": 2}])
-    c = {"d": d, "T": T, "N": N, "S": S, "H": [[box[i] if i == j else 0 for j in range(d)] for i in range(d)],
+    c = {"d": d, "T": T, "N": N, "S": S, "H": H,
          "ppp": ppp, "ts": None, "types": [rng.randint(1, 2) for _ in range(N)],
-         "dia": rng.choice([[[1, 1], [1, 1]], [[1, 1], [2, 1]], [[3, 2], [1, 1]], [[6, 5], [2, 1]]]),
+         "dia": rng.choice([[[1, 1], [1, 1]], [[1, 1], [2, 1]], [[3, 2], [1, 1]], [[1, 2], [2, 1]]]),
          "a": rng.choice([[3, 10], [1, 2], [3, 4]]), "cal": rng.choice(["slow", "fast"]), "mode": mode,
          "xu": xu, "x": x, "hasCond": hasCond, "cond": cond, "hasNb": hasNb, "nb": nb,
          "nmax": rng.choice([30, 30, 2]), "q": q}
@@ -363,6 +386,8 @@ def gen_case(rng):
 def gen_record(rng, tmpdir):
     c = gen_case(rng)
     op = rng.choice(["lin", "lin", "log", "s4"])
+    if op == "s4" and any(c["H"][i][j] != 0 for i in range(c["d"]) for j in range(c["d"]) if i != j):
+        op = "lin"                                   # the S(q) routine assumes an orthogonal box
     T = c["T"]
     dt = rng.choice([[1, 500], [1, 100], [1, 4], [5, 2]])
     if op == "log":
@@ -494,6 +519,22 @@ def check_trace(chk, recs, ctxs, max_rejects=4, chunk=40):
             chk.violation("trace:" + recs[i]["op"] + ":" + clause, {"dir": "B", "record": recs[i], **ctx})
 
 
+def corrupt_one_field(chk, recs):
+    """Binding self-test of the trace spec: one observed time-axis entry of one record is changed;
+    TraceRelaxation must reject exactly that record with clause TimeAxis."""
+    cand = [r for r in recs if r["op"] in ("lin", "log") and r["obs"]["rows"] == r["c"]["T"] - 1
+            and r["obs"]["tq_ok"] == 1 and (r["op"] == "lin" or r["obs"]["x4zero"] == 1)][:3]
+    if len(cand) < 3:
+        return
+    bad = json.loads(json.dumps(cand))
+    bad[1]["obs"]["tq"][-1] += 1
+    r, rej, _ = validate_records(bad)
+    chk.add_tlc(r, "TraceRelaxation corrupt-one-field")
+    if rej is None or rej[0] != 1 or rej[1] != "TimeAxis":
+        raise MachineryError(f"corrupted trace record was not rejected at that record (got {rej})")
+    chk.extra["corrupt_one_field_rejected"] = True
+
+
 # --------------------------------------------------------------------------
 # entry point
 # --------------------------------------------------------------------------
@@ -569,11 +610,11 @@ def run(tier, replay=None):
             return chk.finish()
 
         # ---- direction A
-        nsh = 8 if tier == "quick" else 16
+        nsh = 8
         seen = {"lin": 0, "log": 0, "s4": 0}
         wrapped_eq = 0
         import concurrent.futures as cf
-        pool = cf.ThreadPoolExecutor(max_workers=2)      # both model runs start now; replay overlaps the second
+        pool = cf.ThreadPoolExecutor(max_workers=2 if tier == "quick" else 1)   # quick: both model runs start now; replay overlaps the second
         futs = {part: pool.submit(run_tlc_sharded, "MC_Relaxation",
                                   dict(constants={"Tier": tier, "Part": part, "SEED": common.SEED},
                                        invariants=INVS, properties=PROPS),
@@ -612,6 +653,9 @@ def run(tier, replay=None):
             recs.append(rec)
             ctxs.append(ctx)
         check_trace(chk, recs, ctxs, chunk=(15 if tier == "quick" else 80))
+        corrupt_one_field(chk, recs)
+        if tier == "thorough" and chk.coverage_actions.get("Acc", 0) == 0:
+            raise MachineryError("action Acc has zero coverage: the loop state machines were not exercised")
         chk.samples.append({"trace_record": {"op": recs[0]["op"], "T": recs[0]["c"]["T"], "N": recs[0]["c"]["N"],
                                              "mode": recs[0]["c"]["mode"], "obs": recs[0]["obs"]}})
         return chk.finish()
